@@ -18,6 +18,7 @@ import (
 	"encoding/json"
 	"flag"
 	"fmt"
+	"net"
 	"net/http"
 	"os"
 	"sort"
@@ -51,6 +52,7 @@ type hwCaseC struct {
 	Ehdr     []hwHV `json:"ehdr"`
 	Opts     []hwHV `json:"opts"`
 	Body     string `json:"body"`
+	TName    bool   `json:"tname"`   // the gun's target is given by name (localhost:port)
 	Gun      string `json:"gun"`     // "" (http gun) | "connect"
 	CSSL     bool   `json:"cssl"`    // connect gun: option connect-ssl
 	CStatus  int    `json:"cstatus"` // connect gun: what the proxy answers to CONNECT
@@ -79,6 +81,7 @@ type hwObs struct {
 	Host   string           `json:"host"`
 	Hdr    []targets.Header `json:"hdr"`
 	Body   string           `json:"body"`
+	SNI    string           `json:"sni"` // TLS server name of the connection, projected ("" none, TARGETHOST = the target's name)
 	// CONNECTs the proxy targets saw while the case ran
 	Connects []hwConnect `json:"connects"`
 	// instants (unix seconds, read in the middleware's location) of the header values that are HTTP dates; those
@@ -112,20 +115,21 @@ const hwOptHostName = "opt.host.test"
 const hwAmmoHost2Name = "ammo2.host.test:8080" // a second Host an ammo file may switch to (never dialled)
 
 type hwEnv struct {
-	rec       *targets.Recorder
-	plain     *targets.HTTPTarget
-	tls       *targets.HTTPTarget
-	decoy     *targets.HTTPTarget
-	decoyTLS  *targets.HTTPTarget
-	log       *zap.Logger
-	fs        afero.Fs
-	guns      map[string]core.Gun
-	agg       *hwAgg
-	gunErrors map[string]string
-	dateLoc   *time.Location                  // location of the header/date middleware of the case being observed (nil: none)
-	answDir   string                          // directory of the guns' answer logs
-	gunTarget string                          // target of the gun of the case being observed (projection of CONNECT lines)
-	proxies   map[string]*targets.ProxyTarget // CONNECT proxies in front of the targets, by (connect-ssl, ssl, status)
+	rec        *targets.Recorder
+	plain      *targets.HTTPTarget
+	tls        *targets.HTTPTarget
+	decoy      *targets.HTTPTarget
+	decoyTLS   *targets.HTTPTarget
+	log        *zap.Logger
+	fs         afero.Fs
+	guns       map[string]core.Gun
+	agg        *hwAgg
+	gunErrors  map[string]string
+	targetName string                          // host name the gun's target was given by ("" = by address) for the case being observed
+	dateLoc    *time.Location                  // location of the header/date middleware of the case being observed (nil: none)
+	answDir    string                          // directory of the guns' answer logs
+	gunTarget  string                          // target of the gun of the case being observed (projection of CONNECT lines)
+	proxies    map[string]*targets.ProxyTarget // CONNECT proxies in front of the targets, by (connect-ssl, ssl, status)
 }
 
 func hwNewEnv() *hwEnv {
@@ -222,7 +226,12 @@ func (e *hwEnv) projectHost(h string, ssl bool) string {
 		return "OPTHOST"
 	case hwAmmoHost2Name:
 		return "AMMOHOST2"
-	case targets.HostOnly(e.target(ssl).Addr()):
+	}
+	want := targets.HostOnly(e.target(ssl).Addr())
+	if e.targetName != "" {
+		want = e.targetName
+	}
+	if h == want {
 		return "TARGETHOST"
 	}
 	return "?" + h
@@ -400,12 +409,21 @@ func (e *hwEnv) runCase(cs hwCase) hwOut {
 		e.target(c.SSL).Set(targets.Behaviour{Kind: "status", Status: c.Side.Status})
 		defer e.target(c.SSL).Set(targets.Behaviour{})
 		out.Via += " side-channels"
+	} else if c.TName {
+		// the same target, named: localhost resolves to the loopback address the target listens on
+		_, port, _ := net.SplitHostPort(e.target(c.SSL).Addr())
+		g, err = e.gun(c.SSL, c.Compress, map[string]interface{}{"target": "localhost:" + port}, "tname", yamlShape)
+		out.Via += " target-by-name"
 	} else {
 		g, err = e.gun(c.SSL, c.Compress, nil, "", yamlShape)
 	}
 	if err != nil {
 		out.Err = "gun: " + err.Error()
 		return out
+	}
+	e.targetName = ""
+	if c.TName {
+		e.targetName = "localhost"
 	}
 	answBefore := 0
 	if c.Side != nil && c.Side.AnswLog != "off" {
@@ -474,6 +492,10 @@ func (e *hwEnv) observe(out *hwOut, ssl bool) {
 		}
 		out.Obs.Server, out.Obs.TLS, out.Obs.Method, out.Obs.URI = ev.Server, ev.TLS, ev.Method, ev.URI
 		out.Obs.Host = e.projectHost(ev.Host, ssl)
+		out.Obs.SNI = ev.SNI
+		if ev.SNI != "" {
+			out.Obs.SNI = e.projectHost(ev.SNI, ssl)
+		}
 		out.Obs.Body = ev.Body
 		out.Obs.Hdr = ev.Hdr
 		if out.Obs.Hdr == nil {
@@ -657,7 +679,7 @@ func (e *hwEnv) runReuse(cs hwCase) []hwOut {
 		}
 	}
 	outs := []hwOut{}
-	e.gunTarget, e.dateLoc = "", nil
+	e.gunTarget, e.dateLoc, e.targetName = "", nil, ""
 	for _, ev := range e.rec.Drain() { // one line per request the target received
 		if ev.Ev != "Req" {
 			continue
@@ -675,6 +697,7 @@ func (e *hwEnv) runReuse(cs hwCase) []hwOut {
 		o.Obs.N = 1
 		o.Obs.Server, o.Obs.TLS, o.Obs.Method, o.Obs.URI = ev.Server, ev.TLS, ev.Method, ev.URI
 		o.Obs.Host = e.projectHost(ev.Host, c.SSL)
+		o.Obs.SNI = ev.SNI
 		o.Obs.Body = ev.Body
 		if ev.Hdr != nil {
 			o.Obs.Hdr = ev.Hdr
@@ -756,7 +779,7 @@ func (e *hwEnv) runFile(cs hwCase) []hwOut {
 		prov.Release(a)
 		if acq <= len(c.Entries) {
 			o := hwOut{ID: cs.ID, K: acq, C: cs.C, Obs: hwObs{Hdr: []targets.Header{}, Connects: []hwConnect{}, Dates: []int{}}, Samples: append([]hwSample{}, e.agg.drain()...), File: file, Via: via}
-			e.gunTarget, e.dateLoc = "", nil
+			e.gunTarget, e.dateLoc, e.targetName = "", nil, ""
 			e.observe(&o, c.SSL)
 			outs = append(outs, o)
 		}
